@@ -54,7 +54,7 @@ fn main() {
         truth_bin: PathBuf::from(env_or("TRUSIM_TRUTH_BIN", "/verif/.cache/truth-target/release/truth-core")),
         shim: PathBuf::from(env_or("TRUSIM_SHIM", "/verif/shim/libtrusim_preload.so")),
         repo: PathBuf::from(env_or("TRUSIM_REPO", "/repo")),
-        cpu_limit_s: 2,
+        cpu_limit_s: env_or("TRUSIM_CPU_S", "10").parse().unwrap_or(10),
         as_limit_bytes: 1 << 30,
     };
     let ctx = Ctx { cfg, corpus: corpus::Corpus::load(&verif.join("corpus")), tier: if tier == "thorough" { Tier::Thorough } else { Tier::Quick }, seed, jobs, base_dir: base_dir.clone(), verif };
@@ -91,6 +91,9 @@ fn main() {
         }
         let res = match what.as_str() {
             "C19" => Some(checks::c19::run(&ctx)),
+            "C03" => Some(checks::c03::run(&ctx)),
+            "C01" => Some(checks::c01::run(&ctx)),
+            "C18" => Some(checks::c18::run(&ctx)),
             _ => None,
         };
         match res {
